@@ -60,6 +60,9 @@ structure D where
   caseBad : Bool := false
   badCases : Nat := 0
   funHist : List (String × Nat) := []
+  curFuns : List String := []             -- tags of the functions emitted by the op being checked
+  curKind : String := "-"
+  curAlt : Bool := false                  -- alternate screen active before the op
   hashes : List (Nat × UInt64) := []      -- per instance: hash of its latest ST record
   seen : Std.HashSet UInt64 := {}         -- (state, op) keys on which a non-trivial predicate was evaluated
   distinct : Nat := 0
@@ -73,9 +76,15 @@ def report (d : D) (kind what : String) : IO D := do
   IO.println s!"{kind} prop={d.prop} case={d.caseId} line={d.lineNo} {what}"
   pure { d with caseBad := true }
 
-def mismatch (d : D) (what : String) : IO D := do
-  let d ← report d "MISMATCH" what
+/-- a correspondence disagreement; `comps` names the state components / outputs that differ so that
+    the check script can decide whether it lies in the footprint of the property being checked -/
+def mismatchC (d : D) (comps : List String) (what : String) : IO D := do
+  let b (x : Bool) : String := if x then "1" else "0"
+  let funs := if d.curFuns.isEmpty then "-" else ",".intercalate d.curFuns
+  let d ← report d "MISMATCH" s!"comps={",".intercalate comps} funs={funs} kind={d.curKind} alt={b d.curAlt} {what}"
   pure { d with mismatches := d.mismatches + 1 }
+
+def mismatch (d : D) (what : String) : IO D := mismatchC d ["protocol"] what
 
 /-- key of "this operation applied to these states" for counting distinct non-trivial evaluations -/
 def opKey (d : D) : UInt64 :=
@@ -115,6 +124,26 @@ def diffVt (m i : Vt) : String :=
   else if mt.charsets ≠ it.charsets ∨ mt.activeCharset ≠ it.activeCharset then "charsets"
   else if mt.cursorKeysMode ≠ it.cursorKeysMode then "cursor_keys_mode"
   else "modes(insert/origin/auto_wrap/new_line)/scrollback_limit/xtwinops"
+
+/-- every component in which two states differ -/
+def compsOf (m i : Vt) : List String :=
+  let mt := m.terminal
+  let it := i.terminal
+  let c (b : Bool) (n : String) : List String := if b then [n] else []
+  c (m.parser ≠ i.parser) "parser" ++ c ((mt.cols, mt.rows) ≠ (it.cols, it.rows)) "size"
+    ++ c (mt.cursor ≠ it.cursor) "cursor" ++ c (mt.pendingWrap ≠ it.pendingWrap) "pending_wrap"
+    ++ c (mt.pen ≠ it.pen) "pen" ++ c (mt.activeBufferType ≠ it.activeBufferType) "active_buffer_type"
+    ++ c (mt.buffer.view ≠ it.buffer.view) "buffer.view" ++ c (mt.buffer.sb ≠ it.buffer.sb) "buffer.scrollback"
+    ++ c ((mt.buffer.cols, mt.buffer.rows, mt.buffer.limit, mt.buffer.trimNeeded)
+          ≠ (it.buffer.cols, it.buffer.rows, it.buffer.limit, it.buffer.trimNeeded)) "buffer.meta"
+    ++ c (mt.otherBuffer ≠ it.otherBuffer) "other_buffer" ++ c (mt.tabs ≠ it.tabs) "tabs"
+    ++ c ((mt.topMargin, mt.bottomMargin) ≠ (it.topMargin, it.bottomMargin)) "margins"
+    ++ c (mt.savedCtx ≠ it.savedCtx) "saved_ctx" ++ c (mt.alternateSavedCtx ≠ it.alternateSavedCtx) "alternate_saved_ctx"
+    ++ c (mt.dirtyLines ≠ it.dirtyLines) "dirty_lines"
+    ++ c (mt.charsets ≠ it.charsets ∨ mt.activeCharset ≠ it.activeCharset) "charsets"
+    ++ c (mt.cursorKeysMode ≠ it.cursorKeysMode) "cursor_keys_mode"
+    ++ c ((mt.insertMode, mt.originMode, mt.autoWrapMode, mt.newLineMode, mt.scrollbackLimit, mt.xtwinops)
+          ≠ (it.insertMode, it.originMode, it.autoWrapMode, it.newLineMode, it.scrollbackLimit, it.xtwinops)) "modes"
 
 def parseRes (ts : List String) : Option Res :=
   -- OK CH n i… SB m line…   |  OK CH - SB -  |  PANIC msg
@@ -162,12 +191,15 @@ def finishOp (d : D) (k : Nat) (op : Op) (res : Res) (next : Option Vt) : IO D :
   let d := { d with ops := d.ops + 1 }
   let model := modelStep prev op
   let funs := if op.kind = .resize then [] else emitted prev.parser op.input
-  let d := { d with funHist := funs.foldl (fun h f => bump h (funTag f)) d.funHist }
+  let d := { d with funHist := funs.foldl (fun h f => bump h (funTag f)) d.funHist,
+                    curFuns := (funs.map funTag).eraseDups,
+                    curKind := (match op.kind with | .feedStr => "feedStr" | .feedDrop => "feedDrop" | .feedChars => "feedChars" | .resize => "resize"),
+                    curAlt := prev.terminal.activeBufferType == .alternate }
   match next with
   | none =>
     -- implementation panicked
     let d := { d with panicsImpl := d.panicsImpl + 1 }
-    let d ← (if model.isSome then mismatch d "impl=PANIC model=ok" else pure d)
+    let d ← (if model.isSome then mismatchC d ["panic"] "impl=PANIC model=ok" else pure d)
     let d ← (if d.prop == "C01" ∨ d.prop == "C02" then do
         let d ← report d "SPECFAIL" s!"what=panic op={d.lastOp}"
         pure { d with specfails := d.specfails + 1 }
@@ -175,17 +207,17 @@ def finishOp (d : D) (k : Nat) (op : Op) (res : Res) (next : Option Vt) : IO D :
     pure (setInst d k { inst with dead := true })
   | some next =>
     let d ← (match model with
-      | none => mismatch d "impl=ok model=PANIC"
+      | none => mismatchC d ["panic"] "impl=ok model=PANIC"
       | some (m, mch) => do
-        let d ← (if m ≠ next then mismatch d s!"state {diffVt m next}" else pure d)
+        let d ← (if m ≠ next then mismatchC d (compsOf m next) s!"state {diffVt m next}" else pure d)
         match mch with
         | none => pure d
         | some mch =>
           let d ← (match res.ch with
-            | some ch => if ch ≠ mch.lines then mismatch d s!"changes.lines model={mch.lines} impl={ch}" else pure d
+            | some ch => if ch ≠ mch.lines then mismatchC d ["changes.lines"] s!"changes.lines model={mch.lines} impl={ch}" else pure d
             | none => pure d)
           match res.sb with
-          | some sb => if sb ≠ mch.scrollback then mismatch d s!"changes.scrollback model_len={mch.scrollback.length} impl_len={sb.length}" else pure d
+          | some sb => if sb ≠ mch.scrollback then mismatchC d ["changes.scrollback"] s!"changes.scrollback model_len={mch.scrollback.length} impl_len={sb.length}" else pure d
           | none => pure d)
     -- spec-on-impl
     let ev : Spec.StepEv := { prev := prev, next := next, funs := funs,
@@ -235,6 +267,9 @@ def applyVerdicts (d : D) (vs : List Spec.Verdict) : IO D := do
 partial def handle (d : D) (line : String) : IO D := do
   let ts := (line.splitOn " ").filter (· ≠ "")
   let d := { d with lineNo := d.lineNo + 1 }
+  let d := match ts.head? with
+    | some "ST" | some "ST_" | some "RES" | some "API" | some "APIERR" => d
+    | _ => { d with curFuns := [], curKind := "-", curAlt := false }
   match ts with
   | [] => pure d
   | "CASE" :: id :: _ =>
@@ -269,8 +304,8 @@ partial def handle (d : D) (line : String) : IO D := do
         if k ≠ k' then mismatch d "ST for wrong instance" else
         let d := { d with pending := .none }
         let d ← (match Vt.new cols rows lim with
-          | none => mismatch d "Vt.new: impl=ok model=PANIC"
-          | some m => if m ≠ st then mismatch d s!"Vt.new state {diffVt m st}" else pure d)
+          | none => mismatchC d ["new"] "Vt.new: impl=ok model=PANIC"
+          | some m => if m ≠ st then mismatchC d ["new"] s!"Vt.new state {diffVt m st}" else pure d)
         let d ← applyVerdicts d (Spec.checkNew d.prop cols rows lim st)
         pure (setInst d k { st := st })
       | .op k' op (some res) =>
@@ -282,11 +317,11 @@ partial def handle (d : D) (line : String) : IO D := do
         let some src := getInst d k' | mismatch d "DUMPTO from unknown instance"
         let t := src.st.terminal
         let d ← (match Vt.new t.cols t.rows none with
-          | none => mismatch d "DUMPTO: model Vt.new failed"
+          | none => mismatchC d ["dumpto"] "DUMPTO: model Vt.new failed"
           | some fresh =>
             match fresh.feedStr dump with
-            | none => mismatch d "DUMPTO: impl=ok model=PANIC while feeding the dump"
-            | some (m, _) => if m ≠ st then mismatch d s!"DUMPTO state {diffVt m st}" else pure d)
+            | none => mismatchC d ["dumpto"] "DUMPTO: impl=ok model=PANIC while feeding the dump"
+            | some (m, _) => if m ≠ st then mismatchC d ["dumpto"] s!"DUMPTO state {diffVt m st}" else pure d)
         pure (setInst d j { st := st })
       | _ => mismatch d "unexpected ST"
   | "RES" :: k :: rest =>
@@ -304,7 +339,7 @@ partial def handle (d : D) (line : String) : IO D := do
       -- constructor panicked
       if k ≠ k' then mismatch d "RES for wrong instance" else
       let d := { d with pending := .none, panicsImpl := d.panicsImpl + 1 }
-      let d ← (if (Vt.new cols rows lim).isSome then mismatch d "Vt.new: impl=PANIC model=ok" else pure d)
+      let d ← (if (Vt.new cols rows lim).isSome then mismatchC d ["new"] "Vt.new: impl=PANIC model=ok" else pure d)
       if d.prop == "C01" then do
         let d ← report d "SPECFAIL" s!"what=panic-in-constructor op={d.lastOp}"
         pure { d with specfails := d.specfails + 1 }
@@ -344,7 +379,7 @@ partial def handle (d : D) (line : String) : IO D := do
       [toString t.cols, toString t.rows, toString t.cursor.col, toString t.cursor.row, b t.cursor.visible,
        b v.cursorKeyAppMode, toString v.view.length, toString nl]
         ++ (v.lines.drop (nl - shown)).map lineApiTok
-    if expect ≠ rest then mismatch d s!"public API disagrees with private state (size/cursor/cursor-key mode/lines/pens/wrap marks)"
+    if expect ≠ rest then mismatchC d ["api"] s!"public API disagrees with private state (size/cursor/cursor-key mode/lines/pens/wrap marks)"
     else pure d
   | "APIERR" :: rest => do
     let d ← report d "SPECFAIL" s!"what=api-self-consistency:{" ".intercalate rest}"
@@ -356,14 +391,14 @@ partial def handle (d : D) (line : String) : IO D := do
     | ["OK", hex] =>
       let some dump := hexDecode hex | mismatch d "bad dump hex"
       let d ← (match inst.st.dump with
-        | none => mismatch d "dump: impl=ok model=PANIC"
-        | some m => if m ≠ dump then mismatch d s!"dump output model={hexEncode m} impl={hex}" else pure d)
+        | none => mismatchC d ["dump"] "dump: impl=ok model=PANIC"
+        | some m => if m ≠ dump then mismatchC d ["dump"] s!"dump output model={hexEncode m} impl={hex}" else pure d)
       match d.pending with
       | .dumpTo k' j none => if k = k' then pure { d with pending := .dumpTo k' j (some dump) } else pure d
       | _ => pure d
     | "PANIC" :: _ =>
       let d := { d with panicsImpl := d.panicsImpl + 1, pending := .none }
-      let d ← (if inst.st.dump.isSome then mismatch d "dump: impl=PANIC model=ok" else pure d)
+      let d ← (if inst.st.dump.isSome then mismatchC d ["dump"] "dump: impl=PANIC model=ok" else pure d)
       if d.prop == "C01" ∨ d.prop == "C11" then do
         let d ← report d "SPECFAIL" "what=panic-in-dump"
         pure { d with specfails := d.specfails + 1 }
@@ -376,7 +411,7 @@ partial def handle (d : D) (line : String) : IO D := do
     | "OK" :: strs =>
       let some t := parseStrs strs | mismatch d "bad TEXTRES strings"
       let m := inst.st.text
-      let d ← (if m ≠ t then mismatch d s!"text() model={strsTok m} impl={strsTok t}" else pure d)
+      let d ← (if m ≠ t then mismatchC d ["text"] s!"text() model={strsTok m} impl={strsTok t}" else pure d)
       pure (setInst d k { inst with lastText := some t })
     | "PANIC" :: _ =>
       let d := { d with panicsImpl := d.panicsImpl + 1 }
@@ -393,7 +428,7 @@ partial def handle (d : D) (line : String) : IO D := do
       let some t := parseStrs strs | mismatch d "bad UNWRAPRES strings"
       let (acc, out) := unwrapMany [] inst.st.lines
       let m := out ++ (unwrapFlush acc).toList
-      let d ← (if m ≠ t then mismatch d s!"TextUnwrapper model={strsTok m} impl={strsTok t}" else pure d)
+      let d ← (if m ≠ t then mismatchC d ["unwrap"] s!"TextUnwrapper model={strsTok m} impl={strsTok t}" else pure d)
       pure (setInst d k { inst with lastUnwrap := some t })
     | "PANIC" :: _ =>
       let d := { d with panicsImpl := d.panicsImpl + 1 }
@@ -411,13 +446,13 @@ partial def handle (d : D) (line : String) : IO D := do
     | "OK" :: n :: lens =>
       let impl := lens.filterMap String.toNat?
       match inst.st.view[row]? with
-      | none => mismatch d "Line::chunks: impl=ok model=row-out-of-range"
+      | none => mismatchC d ["chunks"] "Line::chunks: impl=ok model=row-out-of-range"
       | some l =>
         let m := (l.chunks fun c1 c2 => c1.pen ≠ c2.pen).map List.length
-        if n.toNat? ≠ some m.length ∨ m ≠ impl then mismatch d s!"Line::chunks model={m} impl={impl}" else pure d
+        if n.toNat? ≠ some m.length ∨ m ≠ impl then mismatchC d ["chunks"] s!"Line::chunks model={m} impl={impl}" else pure d
     | "PANIC" :: _ =>
       let d := { d with panicsImpl := d.panicsImpl + 1 }
-      let d ← (if (inst.st.view[row]?).isSome then mismatch d "Line::chunks: impl=PANIC model=ok" else pure d)
+      let d ← (if (inst.st.view[row]?).isSome then mismatchC d ["chunks"] "Line::chunks: impl=PANIC model=ok" else pure d)
       if d.prop == "C01" then do
         let d ← report d "SPECFAIL" "what=panic-in-chunks"
         pure { d with specfails := d.specfails + 1 }
@@ -445,22 +480,22 @@ partial def handle (d : D) (line : String) : IO D := do
       | some tc, ["TCS", _, hex] =>
         let some input := hexDecode hex | mismatch d "bad TCS hex"
         match tc.feedStr input with
-        | none => mismatch d "TextCollector.feed_str: impl=ok model=PANIC"
+        | none => mismatchC d ["collector"] "TextCollector.feed_str: impl=ok model=PANIC"
         | some (tc', m) =>
-          let d ← (if m ≠ out then mismatch d s!"TextCollector.feed_str output model={strsTok m} impl={strsTok out}" else pure d)
+          let d ← (if m ≠ out then mismatchC d ["collector"] s!"TextCollector.feed_str output model={strsTok m} impl={strsTok out}" else pure d)
           pure { d with tcs := (k, some tc') :: d.tcs.filter (·.1 ≠ k) }
       | some tc, ["TCR", _, c, r] =>
         match c.toNat?, r.toNat? with
         | some c, some r =>
           match tc.resize c r with
-          | none => mismatch d "TextCollector.resize: impl=ok model=PANIC"
+          | none => mismatchC d ["collector"] "TextCollector.resize: impl=ok model=PANIC"
           | some (tc', m) =>
-            let d ← (if m ≠ out then mismatch d s!"TextCollector.resize output" else pure d)
+            let d ← (if m ≠ out then mismatchC d ["collector"] s!"TextCollector.resize output" else pure d)
             pure { d with tcs := (k, some tc') :: d.tcs.filter (·.1 ≠ k) }
         | _, _ => mismatch d "bad TCR"
       | some tc, ["TCFLUSH", _] =>
         let m := tc.flush
-        if m ≠ out then mismatch d s!"TextCollector.flush output model={strsTok m} impl={strsTok out}" else pure d
+        if m ≠ out then mismatchC d ["collector"] s!"TextCollector.flush output model={strsTok m} impl={strsTok out}" else pure d
       | _, _ => pure d
     | "PANIC" :: _ =>
       let d := { d with panicsImpl := d.panicsImpl + 1 }
@@ -475,7 +510,7 @@ partial def handle (d : D) (line : String) : IO D := do
     match Codec.run Codec.parser rest with
     | none => mismatch d "unparsable PST"
     | some p =>
-      let d ← (if p ≠ Parser.new then mismatch d "Parser::new differs from the model" else pure d)
+      let d ← (if p ≠ Parser.new then mismatchC d ["parser"] "Parser::new differs from the model" else pure d)
       pure { d with pinsts := (k, p) :: d.pinsts.filter (·.1 ≠ k) }
   | "PRES" :: k :: ch :: rest =>
     let some k := k.toNat? | mismatch d "bad PRES"
@@ -484,7 +519,7 @@ partial def handle (d : D) (line : String) : IO D := do
     let d := { d with ops := d.ops + 1 }
     if rest.head? == some "PANIC" then
       let d := { d with panicsImpl := d.panicsImpl + 1 }
-      let d ← (if (prev.feed c).isSome then mismatch d "Parser.feed: impl=PANIC model=ok" else pure d)
+      let d ← (if (prev.feed c).isSome then mismatchC d ["parser", "panic"] "Parser.feed: impl=PANIC model=ok" else pure d)
       if d.prop == "C01" ∨ d.prop == "C03" then do
         let d ← report d "SPECFAIL" s!"what=panic-in-parser char={ch}"
         pure { d with specfails := d.specfails + 1 }
@@ -497,11 +532,11 @@ partial def handle (d : D) (line : String) : IO D := do
       | none => mismatch d "unparsable PRES state"
       | some next =>
         let d ← (match prev.feed c with
-          | none => mismatch d "Parser.feed: impl=ok model=PANIC"
+          | none => mismatchC d ["parser", "panic"] "Parser.feed: impl=ok model=PANIC"
           | some (m, f) =>
             let mf := match f with | some f => functionTok f | none => "-"
-            if m ≠ next then mismatch d s!"parser state after char {ch}: model={pstateToNat m.state} impl={pstateToNat next.state}"
-            else if mf ≠ fnTok then mismatch d s!"parser function for char {ch}: model={mf} impl={fnTok}"
+            if m ≠ next then mismatchC d ["parser"] s!"parser state after char {ch}: model={pstateToNat m.state} impl={pstateToNat next.state}"
+            else if mf ≠ fnTok then mismatchC d ["parser"] s!"parser function for char {ch}: model={mf} impl={fnTok}"
             else pure d)
         let d ← applyVerdicts d (Spec.checkParserStep d.prop prev c next fnTok)
         let d := { d with funHist := if fnTok == "-" then d.funHist else bump d.funHist ((fnTok.splitOn " ").headD "?") }
